@@ -23,6 +23,9 @@ NthAtoms(U, full) ==
                  [op |-> "nth", a |-> 2, b |-> 1, rev |-> FALSE, of |-> None] })
     \cup { [op |-> "nth", a |-> 0, b |-> 1, rev |-> rv, of |-> k] : rv \in BOOLEAN, k \in KindAtoms(U, 1) }
     \cup (IF ~full THEN {} ELSE { [op |-> "nth", a |-> 0, b |-> 2, rev |-> FALSE, of |-> k] : k \in PatAtoms(U, 1) })
+    \* an ofRule that anonymous siblings (brackets, commas) satisfy as well: only named siblings are counted
+    \cup { [op |-> "nth", a |-> 0, b |-> 2, rev |-> rv, of |-> [op |-> "not", sub |-> k]] : rv \in BOOLEAN, k \in KindAtoms(U, 1) }
+    \cup (IF ~full THEN {} ELSE { [op |-> "nth", a |-> 2, b |-> 1, rev |-> FALSE, of |-> [op |-> "not", sub |-> k]] : k \in RegexAtoms(U) })
 
 Atoms(U, full) ==
     KindAtoms(U, IF full THEN 5 ELSE 2) \cup PatAtoms(U, IF full THEN 5 ELSE 2) \cup RegexAtoms(U) \cup NthAtoms(U, full)
